@@ -188,7 +188,7 @@ func runGoScenario(m map[string]string) string {
 	prompt := true
 	select {
 	case r = <-resCh:
-	case <-time.After(1200 * time.Millisecond):
+	case <-time.After(2 * time.Second):
 		prompt = false
 	}
 	if ctxMode == "during" && finish && prompt {
